@@ -536,6 +536,160 @@ func rulePairedState(r *Run) {
 		}
 	}
 	r.Floor("E9", "paths assigning the connection's session/participant", n, 2)
+	r.sessionScopedFields()
+}
+
+// sessionScopedFields (E9): a per-connection object that holds the connection's session (a struct
+// with a field of type *models.Session: the realtime handler, every module) may hold other
+// session-scoped values — model objects, module state, prepared messages, callbacks. Every such field
+// is assigned only by a function that also assigns the session field (join / Init / leave), so that
+// it is rebound whenever the connection changes session; a field filled lazily elsewhere (a cache, a
+// memo of the last entity, a reused message) survives a session switch and leaks one session's
+// objects into another.
+func (r *Run) sessionScopedFields() {
+	sessT := r.P.LookupType(pkgModels, "Session")
+	if sessT == nil {
+		r.Undecide("E9", "type models.Session not found")
+		return
+	}
+	scoped := func(t types.Type) string {
+		seen := map[types.Type]bool{}
+		var visit func(t types.Type, depth int) string
+		visit = func(t types.Type, depth int) string {
+			if t == nil || depth > 4 || seen[t] {
+				return ""
+			}
+			seen[t] = true
+			switch u := t.(type) {
+			case *types.Named:
+				if u.Obj().Pkg() != nil {
+					pp := u.Obj().Pkg().Path()
+					if pp == pkgModels || strings.HasPrefix(pp, repoMod+"/modules/") || strings.Contains(pp, "/messages/") {
+						if _, isStruct := u.Underlying().(*types.Struct); isStruct {
+							return shortPkg(pp) + "." + u.Obj().Name()
+						}
+						if _, isIface := u.Underlying().(*types.Interface); isIface {
+							return shortPkg(pp) + "." + u.Obj().Name()
+						}
+					}
+				}
+				return ""
+			case *types.Pointer:
+				return visit(u.Elem(), depth+1)
+			case *types.Slice:
+				return visit(u.Elem(), depth+1)
+			case *types.Map:
+				if c := visit(u.Key(), depth+1); c != "" {
+					return c
+				}
+				return visit(u.Elem(), depth+1)
+			case *types.Signature:
+				return "func value"
+			}
+			return ""
+		}
+		return visit(t, 0)
+	}
+	nStructs, nFields := 0, 0
+	for _, pk := range r.P.Pkgs {
+		if pk.Types == nil || !isRepoPkg(pk.Types) || pk.Types.Path() == pkgModels {
+			continue
+		}
+		scope := pk.Types.Scope()
+		for _, name := range scope.Names() {
+			tn, ok := scope.Lookup(name).(*types.TypeName)
+			if !ok {
+				continue
+			}
+			st, ok := tn.Type().Underlying().(*types.Struct)
+			if !ok {
+				continue
+			}
+			pos := pk.Fset.Position(tn.Pos())
+			if strings.HasSuffix(pos.Filename, "_test.go") || strings.HasSuffix(pos.Filename, "websocket/testing.go") {
+				continue
+			}
+			var sessField *types.Var
+			for i := 0; i < st.NumFields(); i++ {
+				if pt, ok := st.Field(i).Type().(*types.Pointer); ok && types.Identical(pt.Elem(), sessT.Type()) {
+					sessField = st.Field(i)
+				}
+			}
+			if sessField == nil {
+				continue
+			}
+			nStructs++
+			// functions assigning the session field
+			assigners := map[*Func]bool{}
+			assignsOf := func(fv *types.Var) []*Func {
+				var out []*Func
+				for _, fn := range r.P.All {
+					if fn.Pkg.Types != pk.Types {
+						continue
+					}
+					found := false
+					ast.Inspect(fn.Body, func(nd ast.Node) bool {
+						as, ok := nd.(*ast.AssignStmt)
+						if !ok {
+							return true
+						}
+						for _, l := range as.Lhs {
+							if se, ok := ast.Unparen(l).(*ast.SelectorExpr); ok {
+								if sel, ok := fn.Info().Selections[se]; ok && sel.Obj() == fv {
+									found = true
+								}
+							}
+						}
+						return true
+					})
+					if found {
+						out = append(out, fn.root().origOrSelf())
+					}
+				}
+				return out
+			}
+			for _, f := range assignsOf(sessField) {
+				for nm := range r.attributed(f) {
+					if g := r.P.FuncByName(nm); g != nil {
+						assigners[g] = true
+					}
+				}
+				assigners[f] = true
+			}
+			for i := 0; i < st.NumFields(); i++ {
+				fv := st.Field(i)
+				if fv == sessField || fv.Embedded() {
+					continue
+				}
+				why := scoped(fv.Type())
+				if why == "" {
+					continue
+				}
+				ws := assignsOf(fv)
+				if len(ws) == 0 {
+					continue // set at construction only (configuration, e.g. the module list)
+				}
+				nFields++
+				for _, w := range ws {
+					ok := assigners[w]
+					if !ok {
+						// glue acting only on behalf of the assigners (helper extracted from join / Init / leave)
+						ok = true
+						for nm := range r.attributed(w) {
+							if g := r.P.FuncByName(nm); g == nil || !assigners[g] {
+								ok = false
+							}
+						}
+					}
+					r.Check("E9", fmt.Sprintf("%s.%s:rebound-with-session[%s]", tn.Name(), fv.Name(), w.Name), ok, w.Body.Pos(),
+						"%s.%s can hold session-scoped data (%s) and is assigned in %s, which does not assign %s.%s: the value survives a change of session (only functions that bind or clear the connection's session may set it)",
+						tn.Name(), fv.Name(), why, w.Name, tn.Name(), sessField.Name())
+				}
+			}
+		}
+	}
+	r.Floor("E9", "per-connection structs holding a session", nStructs, 4)
+	r.Floor("E9", "session-scoped fields assigned after construction", nFields, 4)
 }
 
 // ---------------------------------------------------------------------------------------------
